@@ -42,7 +42,7 @@ INV_SNIPPETS = {
     "inv_mut": "%(obj)s.%(prop)s = %(x)d",
     "inv_del": "delete %(obj)s.%(prop)s",
     "inv_throw": "%(obj)s.%(prop)s = %(x)d; throw new Error('boom')",
-    "inv_ieval": "(1,eval)('%(obj)s.%(prop)s = %(x)d')",
+    "inv_ieval": '(1,eval)("%(obj)s.%(prop)s = %(x)d")',          # no root expression contains a double quote
     "inv_loop": "%(obj)s.%(prop)s = %(x)d; while (true) {}",
 }
 MARKER = "zq"
